@@ -92,7 +92,8 @@ def evaluate(plan, ctx):
             if isinstance(se, dict):
                 se = [se]
             got_e = [canon_sim_expectations(x, list(cfg["arms"])) for x in se]
-            if len(got_e) != len(ea) or not ops.same(got_e, ea, rtol=1e-9, atol=1e-9):
+            # exact: the simulator's re-implementations sum the same rewards in the same order as the library
+            if len(got_e) != len(ea) or not ops.same(got_e, ea):
                 raise Violation("expectations_differ", "%s (%s / %s): simulator %s, API %s"
                                 % (name, cfg["lp"], cfg["np"], ops.short(got_e, 300), ops.short(ea, 300)),
                                 bucket="expectations_differ:" + (cfg["np"][0] if cfg["np"] else "none"))
